@@ -1,7 +1,7 @@
 (* C02 — Validity: decisions extend the instance base and stem from an honest input. *)
-From Coq Require Import ZArith List Bool.
+From Coq Require Import ZArith List Bool Lia.
 From F3 Require Import Spec SpecProofs.
-From F3 Require Instance InstanceNoPanic Refine RefineNet RefineRun InstanceQuorum HappyPath HappyInst HappyStep HappyNet QuorumProofs.
+From F3 Require Instance InstanceNoPanic Refine RefineNet RefineRun InstanceQuorum HappyPath HappyInst HappyStep HappyNet HappyLive QuorumProofs.
 Import ListNotations.
 Open Scope Z_scope.
 
@@ -124,3 +124,94 @@ Example c02_happy_network_example :
   map (fun k => option_map Instance.j_value (Instance.i_term (RefineNet.n_inst (RefineNet.nrun hx_cfg (RefineNet.net0 hx_input) hx_acts) k))) [0; 1; 2; 3]
     = [Some [1; 2; 3]; Some [1; 2; 3]; Some [1; 2; 3]; Some [1; 2; 3]].
 Proof. vm_compute. repeat split. Qed.
+
+(* ---- progress on the happy path: "that chain itself IS decided" ----
+   in addition to the hypotheses above: hs lists the honest members and together they hold a strong quorum; every honest
+   member has started; every vote that was cast has been delivered to every honest member (in whatever order, interleaved
+   in whatever way with the starts, duplicates allowed).  Then every honest member has terminated with a decision for v.
+   No timer is involved: the participant re-examines the tally of its current step after every delivery. *)
+Theorem c02_happy_network_all_decide : forall c honest input v,
+  InstanceNoPanic.committee_wf c -> Instance.c_total c <= 65535 -> 0 <= Instance.c_rebro_round c -> (2 <= length v)%nat ->
+  (forall k, honest k = true -> input k = v) ->
+  forall hs, (forall k, RefineNet.member c honest k <-> In k hs) -> NoDup hs ->
+  QuorumGen.isStrongQuorum (InstanceDecide.sum_power c hs) (Instance.c_total c) = true ->
+  forall acts, RefineNet.all_ok c honest (RefineNet.net0 input) acts -> HappyNet.all_happy c (RefineNet.net0 input) acts ->
+  let n := RefineNet.nrun c (RefineNet.net0 input) acts in
+  (forall k, RefineNet.member c honest k -> Instance.i_phase (RefineNet.n_inst n k) <> Instance.INITIAL) ->
+  (forall k s p, RefineNet.member c honest k -> RefineNet.member c honest s -> HappyLive.four p ->
+     In (Refine.voteS s 0 p v) (RefineNet.n_votes n) -> HappyLive.delivered acts k s p) ->
+  forall k, RefineNet.member c honest k ->
+    Instance.i_phase (RefineNet.n_inst n k) = Instance.TERMINATED /\
+    exists j, Instance.i_term (RefineNet.n_inst n k) = Some j /\ Instance.j_value j = v.
+Proof. exact HappyLive.happy_all_decide. Qed.
+Print Assumptions c02_happy_network_all_decide.
+
+(* the same in terms of states: in ANY state reached by a happy schedule in which every honest member has started and has
+   recorded (or no longer needs) every vote cast so far, every honest member has decided v -- there is no state in which
+   the happy path is stuck short of the decision *)
+Theorem c02_happy_network_saturated_decided : forall c honest input v,
+  InstanceNoPanic.committee_wf c -> Instance.c_total c <= 65535 -> 0 <= Instance.c_rebro_round c -> (2 <= length v)%nat ->
+  (forall k, honest k = true -> input k = v) ->
+  forall hs, (forall k, RefineNet.member c honest k <-> In k hs) -> NoDup hs ->
+  QuorumGen.isStrongQuorum (InstanceDecide.sum_power c hs) (Instance.c_total c) = true ->
+  forall acts, RefineNet.all_ok c honest (RefineNet.net0 input) acts -> HappyNet.all_happy c (RefineNet.net0 input) acts ->
+  let n := RefineNet.nrun c (RefineNet.net0 input) acts in
+  (forall k, RefineNet.member c honest k -> Instance.i_phase (RefineNet.n_inst n k) <> Instance.INITIAL) ->
+  HappyLive.saturated c honest v n ->
+  forall k, RefineNet.member c honest k ->
+    Instance.i_phase (RefineNet.n_inst n k) = Instance.TERMINATED /\
+    exists j, Instance.i_term (RefineNet.n_inst n k) = Some j /\ Instance.j_value j = v.
+Proof.
+  intros c honest input v Hwf Hsc Hrr Hv Hun hs Hhs Hnd Hst acts Hok Hh n Hstarted Hsat.
+  assert (X : RefineNet.NI c honest input n /\ HappyNet.HN c honest v n /\ HappyLive.HL c honest v n).
+  { eapply HappyLive.live_run; try eassumption; [apply RefineNet.NI_net0|apply HappyNet.HN_net0|apply HappyLive.HL_net0]. }
+  destruct X as (A & B & C). eapply HappyLive.saturated_decided; eassumption.
+Qed.
+Print Assumptions c02_happy_network_saturated_decided.
+
+(* non-vacuity THROUGH the theorem: the 68-action schedule above meets every hypothesis of c02_happy_network_all_decide
+   (four honest members 0..3 holding the whole power; all started; each of the 16 votes delivered to each member) *)
+Lemma hx_members : forall k, RefineNet.member hx_cfg hx_honest k <-> In k [0; 1; 2; 3].
+Proof.
+  intros k. unfold RefineNet.member, hx_honest, Refine.nmem. cbn. split.
+  - intros ((H1 & H2) & _). assert (k = 0 \/ k = 1 \/ k = 2 \/ k = 3) as [-> | [-> | [-> | ->]]] by lia; auto.
+  - intros [<-|[<-|[<-|[<-|[]]]]]; (split; [lia|reflexivity]).
+Qed.
+Example c02_happy_network_all_decide_example : forall k, RefineNet.member hx_cfg hx_honest k ->
+  exists j, Instance.i_term (RefineNet.n_inst (RefineNet.nrun hx_cfg (RefineNet.net0 hx_input) hx_acts) k) = Some j /\
+            Instance.j_value j = [1; 2; 3].
+Proof.
+  assert (Hc : InstanceRun.cfg_wfb hx_cfg = true /\
+               RefineRun.all_okb hx_cfg hx_honest (RefineNet.net0 hx_input) hx_acts = true /\
+               HappyNet.all_happyb hx_cfg (RefineNet.net0 hx_input) hx_acts = true /\
+               forallb (fun k => negb (Instance.phase_eqb (Instance.i_phase (RefineNet.n_inst (RefineNet.nrun hx_cfg (RefineNet.net0 hx_input) hx_acts) k)) Instance.INITIAL) &&
+                                 forallb (fun s => forallb (fun p => HappyLive.deliveredb hx_acts k s p)
+                                                     [Instance.QUALITY; Instance.PREPARE; Instance.COMMIT; Instance.DECIDE]) [0; 1; 2; 3]) [0; 1; 2; 3] = true /\
+               QuorumGen.isStrongQuorum (InstanceDecide.sum_power hx_cfg [0; 1; 2; 3]) (Instance.c_total hx_cfg) = true)
+    by (vm_compute; repeat split).
+  destruct Hc as (Hwfb & Hokb & Hhb & Hall & Hstrong).
+  (* from here on nothing must be computed by unification: the schedule and the run stay folded *)
+  Opaque hx_acts RefineNet.nrun HappyLive.deliveredb.
+  pose proof (proj1 (forallb_forall _ _) Hall) as Hall'. cbv beta in Hall'. clear Hall.
+  intros k Hk.
+  assert (Hwf : InstanceNoPanic.committee_wf hx_cfg) by (apply InstanceNoPanic.cfg_wfb_spec; exact Hwfb).
+  assert (Hnd : NoDup [0; 1; 2; 3]) by (repeat constructor; cbn; intuition lia).
+  pose proof (c02_happy_network_all_decide hx_cfg hx_honest hx_input [1; 2; 3] Hwf ltac:(cbn; lia) ltac:(cbn; lia) ltac:(cbn; lia)
+              (fun _ _ => eq_refl) [0; 1; 2; 3] hx_members Hnd Hstrong hx_acts) as T.
+  assert (Hok : RefineNet.all_ok hx_cfg hx_honest (RefineNet.net0 hx_input) hx_acts) by (apply (RefineRun.all_okb_sound hx_cfg hx_honest hx_input); exact Hokb).
+  assert (Hh : HappyNet.all_happy hx_cfg (RefineNet.net0 hx_input) hx_acts) by (eapply HappyNet.all_happyb_sound; exact Hhb).
+  specialize (T Hok Hh). cbv zeta in T.
+  assert (H1 : forall k', RefineNet.member hx_cfg hx_honest k' ->
+            Instance.i_phase (RefineNet.n_inst (RefineNet.nrun hx_cfg (RefineNet.net0 hx_input) hx_acts) k') <> Instance.INITIAL).
+  { intros k' Hk'. apply hx_members in Hk'. pose proof (Hall' k' Hk') as Hx.
+    apply andb_true_iff in Hx. destruct Hx as (Hp & _). apply negb_true_iff in Hp. intros E. rewrite E in Hp. discriminate Hp. }
+  assert (H2 : forall k' s p, RefineNet.member hx_cfg hx_honest k' -> RefineNet.member hx_cfg hx_honest s -> HappyLive.four p ->
+            In (Refine.voteS s 0 p [1; 2; 3]) (RefineNet.n_votes (RefineNet.nrun hx_cfg (RefineNet.net0 hx_input) hx_acts)) ->
+            HappyLive.delivered hx_acts k' s p).
+  { intros k' s p Hk' Hs Hp _. apply hx_members in Hk'. apply hx_members in Hs. pose proof (Hall' k' Hk') as Hx.
+    apply andb_true_iff in Hx. destruct Hx as (_ & Hd). pose proof (proj1 (forallb_forall _ _) Hd s Hs) as Hd2. cbv beta in Hd2.
+    apply HappyLive.deliveredb_sound. apply (proj1 (forallb_forall _ _) Hd2 p).
+    destruct Hp as [-> | [-> | [-> | ->]]]; cbn [In]; auto. }
+  destruct (T H1 H2 k Hk) as (_ & j & Ej & Ev). exists j. split; assumption.
+Qed.
+Transparent hx_acts RefineNet.nrun HappyLive.deliveredb.
